@@ -100,7 +100,7 @@ func c09(env *Env, rep *Report) {
 		"scheduling points are the blocking operations and every Write/Close on a connection, dial, spawn, lock/unlock; a single Write is atomic (as in Go's network layer)",
 		"the race runtime keeps a bounded access history per word (executions are a few hundred steps)",
 		fmt.Sprintf("race build: %v", vsched.RaceEnabled))
-	bound := 2
+	bound := 1
 	if env.thorough() {
 		bound = 2
 	}
@@ -124,9 +124,6 @@ func c09(env *Env, rep *Report) {
 			if env.thorough() {
 				b = 3
 			}
-		}
-		if env.thorough() && (strings.HasPrefix(sc.Name, "D2") || strings.HasPrefix(sc.Name, "D3")) {
-			b = 3
 		}
 		exploreConc(env, rep, sc, b, rl, c09Check(sc))
 	}
